@@ -8,7 +8,8 @@ mkdir -p /tmp/mt/results
 missed=0
 for d in /verif/seeded/*/; do
     name=$(basename "$d")
-    id=$(echo "$name" | sed -E 's/^((r2-)?C[0-9]+-m[0-9]+).*/\1/')
+    [ -f "$d/meta.json" ] || continue
+    id=$(echo "$name" | sed -E 's/^((r[0-9]-)?C[0-9]+-m[0-9]+).*/\1/')
     if [ $# -gt 0 ]; then match=0; for p in "$@"; do case "$name" in $p*) match=1;; esac; done; [ $match = 1 ] || continue; fi
     prop=$(python3 -c "import json,sys; print(json.load(open('$d/meta.json'))['breaks_property'])")
     /verif/tools/try_mutant_isolated.sh "$d/patch.diff" "$prop" > /tmp/mt/results/$id.txt 2>&1
